@@ -65,3 +65,16 @@ func nilBarcode(bc any) bool {
 	}
 	return false
 }
+
+// aliasRune returns a non-ASCII rune whose low byte equals the ASCII character c (c + 0x100*k): inputs that
+// byte-truncating code (byte(r), r & 0xFF) confuses with c.
+func aliasRune(c byte, k int) rune {
+	r := rune(c) + 0x100*rune(1+k%200)
+	if r >= 0xD800 && r <= 0xDFFF {
+		r += 0x1000
+	}
+	return r
+}
+
+// nonASCIIDigits: decimal digits of other scripts (Unicode category Nd) - digits for unicode.IsDigit, not for the symbologies.
+var nonASCIIDigits = []rune("٠١٢٣٤٥٦٧٨٩०१२३४५６７８９０１２３４۵۶߀߁")
